@@ -31,6 +31,14 @@ PROPS = {
              {"checks": 8000, "timeout": 300},
              {"checks": 30000, "shards": 16, "timeout": 1800},
              assumptions=COMMON_ASSUME),
+    "C08": P("TestC08", "exploration",
+             {"checks": 5000, "timeout": 300},
+             {"checks": 20000, "shards": 16, "timeout": 1800},
+             assumptions=COMMON_ASSUME),
+    "C09": P("TestC09", "fault_enumeration",
+             {"checks": 6000, "timeout": 300},
+             {"checks": 25000, "shards": 16, "timeout": 1800},
+             assumptions=COMMON_ASSUME),
 }
 
 TRUST = "Trusted base: Go runtime, net/http, compress/*, google.golang.org/protobuf, rapid, and the harness's own reference wire layer as the reading of the protocol specs. Generated search: absence of violations is evidence over the explored cases only."
@@ -59,6 +67,16 @@ META = {
     "C05": {
         "technique": 'property-based testing (rapid): generated header/trailer sets relayed through the real Transcoder; per-name ordered multi-value equality and status-key leak check as oracle',
         "level_text": 'Generated exploration of metadata sets (random-case names, multi-values, -bin values, names on both sides, both trailer styles) over success, error and trailers-only outcomes and all client forms / target configurations.',
+        "level_note": TRUST,
+    },
+    "C08": {
+        "technique": 'property-based testing (rapid), metamorphic: the same scenario under a generated read/write/flush segmentation must give the handler the same request bytes and the client the same canonical outcome as the unsegmented run',
+        "level_text": 'Generated exploration of segmentations (1-byte reads and writes, handler buffers of 1-8 bytes, cuts inside envelope prefixes and payloads, empty writes, interleaved flushes) over every adapter path; the relation to the single-read/single-write run is the oracle, and that baseline run is itself judged by C01-C03.',
+        "level_note": TRUST,
+    },
+    "C09": {
+        "technique": 'fault injection over generated exchanges (rapid): one wire-level fault per case on request or response bytes; reference decoder decides which faulty streams must fail; client outcome, response well-formedness and backend-observed messages are checked',
+        "level_text": 'Fault enumeration: cut points, every kind of flag value, length and content-length misstatement, bit flips, undecodable payloads, missing status and trailing data, on both directions of every pairing; thorough adds exhaustive cut points/flag values for fixed small streams.',
         "level_note": TRUST,
     },
 }
